@@ -204,14 +204,20 @@ async def run_proxy_deframe(framed, rnd):
     return seen
 
 
-async def run_relay(stream, rnd):
+async def run_relay(stream, rnd, pop3=False):
+    import asimap.pop3_server as P
     import asimap.server as S
 
     loop = asyncio.get_running_loop()
     cw = MemWriter("client", loop)
-    c = S.IMAPClient(FakeServer(), "n", "1.2.3.4", 5, asyncio.StreamReader(), cw)
-    si = c.subprocess_intf
-    si.reader = asyncio.StreamReader(limit=131_072)
+    if pop3:
+        c = P.POP3Client(FakeServer(), "p", "1.2.3.4", 6, asyncio.StreamReader(), cw)
+        si = c.subprocess_intf
+        si.reader = asyncio.StreamReader()  # open_connection() default limit
+    else:
+        c = S.IMAPClient(FakeServer(), "n", "1.2.3.4", 5, asyncio.StreamReader(), cw)
+        si = c.subprocess_intf
+        si.reader = asyncio.StreamReader(limit=131_072)
     si.writer = MemWriter("sub", loop)
     t = asyncio.create_task(si.msgs_to_client())
     pos = 0
@@ -376,8 +382,9 @@ async def script(loop, ctx):
             parts.append(b"* 1 FETCH (BODY[] {%d}\r\n" % len(payload) + payload + b")\r\n")
             parts.append(b"a%d OK done\r\n" % j)
         stream = b"".join(parts)
-        out, closed = await run_relay(stream, rnd)
+        out, closed = await run_relay(stream, rnd, pop3=(j % 2 == 1))
         counts["relay_streams"] += 1
+        counts["relay_pop3" if j % 2 else "relay_imap"] += 1
         counts["relay_octets"] += len(stream)
         longest = max(len(x) for x in stream.split(b"\r\n"))
         cid = f"s{k}.relay{j}"
